@@ -223,6 +223,16 @@ def symbols_for(nparam):
     return list(reversed(syms))
 
 
+def user_symbols(nparam, rng):
+    """an EXPLICIT symbols list for the sympy-expression format whose order (mostly) differs from the
+    name order: parameter p is the symbol of name rank ranks[p].  Returns (symbols, ranks)."""
+    ranks = list(range(nparam))
+    if nparam >= 2 and rng.random() < 0.75:
+        while ranks == sorted(ranks):
+            rng.shuffle(ranks)
+    return [sympy.Symbol(SYMBOL_NAMES[r], real=True) for r in ranks], ranks
+
+
 def present(inst, fmt, desig, rng):
     """returns (hamiltonian, kwargs for operator_to_BlockSeries/block_diagonalize, info) or None if
     the presentation does not exist for this instance."""
@@ -270,7 +280,8 @@ def present(inst, fmt, desig, rng):
             ham[key] = conv(M, vt)
         info["syms"] = syms
     elif fmt == "expr":
-        syms = symbols_for(nparam)
+        syms, ranks = user_symbols(nparam, rng)
+        info["ranks"] = ranks
         expr = sympy.zeros(dim)
         extra = view.extra
         for n, M in (H if extra is None else extra["H_poly"]).items():
@@ -315,6 +326,13 @@ def corder(n):
     return "[%s]" % "; ".join("%d%%nat" % x for x in n)
 
 
+def named_poly(ranks, ids):
+    """Coq: poly_in (resolve_symbols <user order> []) Q with Q keyed by the exponent of each name rank."""
+    arms = "".join("if %s then %d%%Z else " % (" && ".join("(pw %d%%nat =? %d%%nat)%%nat" % (ranks[p], e) for p, e in enumerate(n)) or "true", ids[n])
+                   for n in sorted(ids))
+    return "(poly_in ZVals (resolve_symbols [%s] []) (fun pw => %s0%%Z))" % ("; ".join("%d%%nat" % r for r in ranks), arms)
+
+
 def model_term(inst, fmt, desig, info, queries):
     nparam = inst["nparam"]
     sub = inst["sub"]
@@ -355,7 +373,9 @@ def model_term(inst, fmt, desig, info, queries):
         c = "(@CMono ZVals [%s])" % "; ".join(
             "([%s], %d%%Z)" % ("; ".join("(%d%%nat, %d%%nat)" % (p, e) for p, e in enumerate(n) if e), ids[n]) for n in sorted(H))
     elif fmt == "expr":
-        c = "(@CExpr ZVals %d%%nat (fun e => %s0%%Z))" % (nparam, "".join("if order_eqb e %s then %d%%Z else " % (corder(n), ids[n]) for n in sorted(H)))
+        # the polynomial by named symbols (ranks in the name order); the explicit symbols list in
+        # the user's order decides which index counts which symbol
+        c = "(@CExpr ZVals %d%%nat %s)" % (nparam, named_poly(info["ranks"], {n: ids[n] for n in H}))
     else:
         raise ValueError(fmt)
     if desig == "indices":
@@ -411,7 +431,7 @@ def scalar_expr_case(rng):
     single 1x1 block per order = coefficient * monomial.  Returns (term, meta, problems)."""
     from pymablock.block_diagonalization import operator_to_BlockSeries
     nparam = rng.choice([2, 3])
-    syms = symbols_for(nparam)
+    syms, ranks = user_symbols(nparam, rng)
     coeffs = {(0,) * nparam: Fr(rng.randint(1, 5), rng.randint(1, 3))}
     for o in gq.orders_upto(nparam, 3):
         if sum(o) == 1 or (sum(o) >= 2 and rng.random() < (0.7 if sum(1 for e in o if e) >= 2 else 0.3)):
@@ -437,7 +457,10 @@ def scalar_expr_case(rng):
     ids = {o: k + 1 for k, o in enumerate(sorted(coeffs))}
     tbl = "[%s]" % "; ".join("(%d%%Z, %s)" % (ids[o], cmat([[G(coeffs[o])]])) for o in sorted(coeffs))
     qs = "[%s]" % "; ".join("(%s, (%d%%nat, %d%%nat), %s)" % (corder(n), i, j, cmat(E)) for n, i, j, E in queries)
-    c = "(@CExpr ZVals %d%%nat (fun e => %s0%%Z))" % (nparam, "".join("if order_eqb e %s then %d%%Z else " % (corder(o), ids[o]) for o in sorted(coeffs)))
+    c = "(@CExpr ZVals %d%%nat %s)" % (nparam, named_poly(ranks, ids))
+    names = S.dimension_names
+    if tuple(names or ()) != tuple(syms):
+        problems.append("scalar expression: dimension_names %s, expected %s" % (names, tuple(syms)))
     term = "fcase %s (setup_of_indices FX [0%%nat]) true %s %s" % (c, tbl, qs)
     meta = dict(inst=dict(scalar_expr=str(expr), nparam=nparam), fmt="scalar-expr", desig="none")
     return term, meta, problems
@@ -523,12 +546,15 @@ def run_bd(inst, fmt, desig, rng, N):
     return out
 
 
-def compare_instance(inst, rng, N):
+def compare_instance(inst, rng, N, seed=None):
     """returns (number of presentations, list of failures)."""
     ref = None
     failures = []
     count = 0
     combos = [(fmt, desig) for fmt in ["dict"] + [f for f in FORMATS if f != "dict"] for desig in DESIGNATIONS]
+    if inst.get("reduced") and not inst.get("light"):
+        # quick tier, large symbolic instance: every format once, the designations on two formats
+        combos = [(f, "indices") for f in ["dict"] + [f for f in FORMATS if f != "dict"]] + [("dict", "eigid"), ("dict", "eigrot"), ("expr", "eigrot")]
     if inst.get("light"):
         combos = [("dict", "indices"), ("mono", "indices"), ("expr", "indices"), ("expr", "eigid"), ("expr", "eigrot"), ("series", "eigrot")]
     for fmt, desig in combos:
@@ -538,13 +564,13 @@ def compare_instance(inst, rng, N):
                 out = run_bd(inst, fmt, desig, rng, N)
             except Exception as e:  # noqa: BLE001
                 failures.append(dict(what="block_diagonalize raised %s for presentation (%s, %s, %s): %s" % (type(e).__name__, fmt, inst["fmt"], desig, str(e)[:160]),
-                                     input=dict(kind="formats", inst=inst, N=N)))
+                                     input=dict(kind="formats", inst=inst, N=N, seed=seed)))
                 continue
             if out is None:
                 continue
             count += 1
             if "error" in out:
-                failures.append(dict(what="(%s, %s, %s): %s" % (fmt, inst["fmt"], desig, out["error"]), input=dict(kind="formats", inst=inst, N=N)))
+                failures.append(dict(what="(%s, %s, %s): %s" % (fmt, inst["fmt"], desig, out["error"]), input=dict(kind="formats", inst=inst, N=N, seed=seed)))
                 continue
             if ref is None:
                 ref = (fmt, desig, out)
@@ -552,14 +578,14 @@ def compare_instance(inst, rng, N):
             bad = [k for k in ref[2] if out.get(k) != ref[2][k]]
             if bad:
                 failures.append(dict(what="%s%s differs between presentations (%s, %s) and (%s, %s), value type %s" % (bad[0][0], bad[0][1:], ref[0], ref[1], fmt, desig, inst["fmt"]),
-                                     input=dict(kind="formats", inst=inst, N=N), differing=len(bad)))
+                                     input=dict(kind="formats", inst=inst, N=N, seed=seed), differing=len(bad)))
     return count, failures
 
 
 def _oracle_task(task):
     import random
     inst, seed, N = task
-    return compare_instance(inst, random.Random(seed), N)
+    return compare_instance(inst, random.Random(seed), N, seed=seed)
 
 
 def oracle_formats(ctx, ninst=None):
@@ -576,6 +602,8 @@ def oracle_formats(ctx, ninst=None):
             inst = make_instance(rng, vts[k % 3], k // 3, small=(vts[k % 3] == "sympy"))  # dim <= 6 for sympy
         # exact symbolic evaluation is slow: total order 3 there (4 in thorough when dim <= 2 and <= 2 parameters), 4 (thorough) for the float types
         N = 3 if (ctx.quick or (inst["fmt"] == "sympy" and (len(inst["sub"]) > 2 or inst["nparam"] > 2))) else 4
+        if ctx.quick and inst["fmt"] == "sympy" and len(inst["sub"]) >= 4:
+            inst["reduced"] = True
         tasks.append((inst, rng.getrandbits(32), N))
         if max(inst["sub"]) >= 1:
             nt.add(core.canon(inst))
@@ -596,7 +624,8 @@ def oracle_formats(ctx, ninst=None):
 
 def replay_formats(inp):
     import random
-    cnt, fs = compare_instance(inp["inst"], random.Random(0), inp.get("N", 3))
+    seed = inp.get("seed") or 0
+    cnt, fs = compare_instance(inp["inst"], random.Random(seed), inp.get("N", 3), seed=seed)
     for f in fs:
         print(f["what"])
     print("presentations run:", cnt, "failures:", len(fs))
